@@ -13,8 +13,7 @@ type headerScanner struct {
 	r int
 
 	// blockEnd is the end of the header block in b when the caller has
-	// already found it (see readRawHeaders), 0 otherwise. next only trusts
-	// it if the block really ends in CRLFCRLF there.
+	// already found it (see readRawHeaders), 0 otherwise.
 	blockEnd int
 
 	key   []byte
@@ -34,19 +33,31 @@ func (s *headerScanner) next() bool {
 			return false
 		}
 
-		if s.blockEnd >= 4 && s.blockEnd <= len(s.b) &&
-			bytes.Equal(s.b[s.blockEnd-4:s.blockEnd], strCRLFCRLF) {
-			// The caller already found the end of the block, no need to
-			// search for it again. The first CRLFCRLF can only sit at
-			// blockEnd-4 since readRawHeaders stops at the first blank line.
-			s.b = s.b[:s.blockEnd]
+		// The block ends at its first blank line. Lines end in LF with an
+		// optional preceding CR, exactly as readLine and readRawHeaders
+		// delimit them, so that what is parsed never depends on the bytes
+		// that follow the block.
+		end := s.blockEnd
+		if end <= 0 || end > len(s.b) {
+			// The caller has not found the end of the block (see
+			// readRawHeaders), search for it.
+			end = headerBlockEnd(s.b)
+		}
+		if end < 0 {
+			s.err = ErrNeedMore
+			return false
+		}
+		if end >= 2 && s.b[end-2] == rChar {
+			s.b = s.b[:end]
 		} else {
-			i := bytes.Index(s.b, strCRLFCRLF)
-			if i < 0 {
+			// The first blank line is terminated by a bare LF. It does not
+			// terminate the block, and the block cannot continue past it.
+			if !bytes.Contains(s.b, strCRLFCRLF) {
 				s.err = ErrNeedMore
 				return false
 			}
-			s.b = s.b[:i+4]
+			s.err = errors.New("invalid headers, blank line terminated by bare LF")
+			return false
 		}
 		if len(s.b) > 0 && (s.b[0] == ' ' || s.b[0] == '\t') {
 			s.err = errors.New("invalid headers, headers cannot start with space or tab")
@@ -86,6 +97,22 @@ func (s *headerScanner) next() bool {
 	}
 
 	return true
+}
+
+// headerBlockEnd returns the index just past the first blank line in b,
+// or -1 if b holds no blank line yet.
+func headerBlockEnd(b []byte) int {
+	n := 0
+	for {
+		i := bytes.IndexByte(b[n:], nChar)
+		if i < 0 {
+			return -1
+		}
+		if i == 0 || (i == 1 && b[n] == rChar) {
+			return n + i + 1
+		}
+		n += i + 1
+	}
 }
 
 // readLine reads a line from b, starting at s.r, and returns it with the
